@@ -102,6 +102,7 @@ def readLine (r : ReadResult) : String :=
 def writeLine (r : WriteResult) : String :=
   match r with
   | .ok bs => s!"ok {toHex bs}"
+  | .okTruncated bs => s!"truncated {toHex bs}"
   | .capacity => "capacity"
   | .tooLongData => "toolong"
   | .panic _ => "panic"
